@@ -39,6 +39,17 @@ type Trace struct {
 	Copies   int           `json:"copies"`  // retx: retransmitted copies seen
 }
 
+// sweepraceRetry: a run that does not reach its scheduling point says nothing and is repeated
+func sweepraceRetry(poolSize uint32, variant string) Trace {
+	for k := 0; k < 3; k++ {
+		if tr := sweeprace(poolSize, variant); tr.Done {
+			return tr
+		}
+	}
+	rec.Die("c12 sweeprace: the sweep never reached the scheduling point")
+	return Trace{}
+}
+
 // noTrack: the race-detector pass - no tracker (its mutex would order the very accesses the detector looks for) and the
 // application releases every response the moment it gets it
 var noTrack = os.Getenv("VERIF_NOTRACK") == "1"
@@ -210,6 +221,10 @@ func Run(stimPath, out string) {
 		wr.Put(retx(rec.Seed()*100+int64(k), 64, rounds*5))
 		if os.Getenv("VERIF_DEBUG") != "" {
 			println("retx", time.Since(t0).String())
+		}
+		for _, v := range []string{"expired", "due"} {
+			wr.Put(sweepraceRetry(0, v))
+			wr.Put(sweepraceRetry(64, v))
 		}
 		wr.Put(bwpark(0))
 		wr.Put(bwpark(64))
